@@ -254,29 +254,26 @@ impl MStruct {
     /// Name-level cover relation (C01/C02), decided semantically without rights: does user policy
     /// `u` cover the encryption conjunction `e` (both resolved in this structure)?
     pub fn covers(&self, u: &Pol, e: &[(String, String)]) -> bool {
-        // attribute x of the user policy is true iff dim(x) not in dims(e) or e[dim(x)] <= x
+        // attribute x of the user policy is true iff every attribute of e in dim(x) is <= x (none: true)
         let truth = |dn: &str, an: &str| -> bool {
-            match e.iter().find(|(d, _)| d == dn) {
-                None => true,
-                Some((_, en)) => {
-                    let d = match self.dims.get(dn) {
-                        Some(d) => d,
-                        None => return false,
-                    };
-                    let pe = d.attrs.iter().position(|a| &a.name == en);
-                    let pu = d.attrs.iter().position(|a| a.name == an);
-                    match (pe, pu) {
-                        (Some(pe), Some(pu)) => {
-                            if d.ordered {
-                                pe <= pu
-                            } else {
-                                pe == pu
-                            }
+            let d = match self.dims.get(dn) {
+                Some(d) => d,
+                None => return false,
+            };
+            let pu = d.attrs.iter().position(|a| a.name == an);
+            e.iter().filter(|(ed, _)| ed == dn).all(|(_, en)| {
+                let pe = d.attrs.iter().position(|a| &a.name == en);
+                match (pe, pu) {
+                    (Some(pe), Some(pu)) => {
+                        if d.ordered {
+                            pe <= pu
+                        } else {
+                            pe == pu
                         }
-                        _ => false,
                     }
+                    _ => false,
                 }
-            }
+            })
         };
         u.eval(&truth)
     }
@@ -382,17 +379,23 @@ impl Pol {
     /// Prints the policy in the documented grammar with random spacing and redundant parentheses.
     pub fn print(&self, rng: &mut Rng) -> String {
         let mut s = String::new();
-        self.print_into(rng, &mut s, 0, true);
+        self.print_into(rng, &mut s, 0, true, true);
         s
     }
 
     /// `ctx`: 0 = top / inside parentheses, 1 = operand of OR, 2 = operand of AND.
-    fn print_into(&self, rng: &mut Rng, out: &mut String, ctx: u8, top: bool) {
+    /// `tail`: nothing follows this node before the end of its parenthesis level (or of the string).
+    fn print_into(&self, rng: &mut Rng, out: &mut String, ctx: u8, top: bool, tail: bool) {
         // 0-2 layers of redundant parentheses, on a quarter of the nodes
         let extra = if !top && rng.chance(1, 4) { rng.range(1, 2) } else { 0 };
         match self {
             Pol::All => {
                 if top {
+                    Self::sp(rng, out);
+                    out.push('*');
+                    Self::sp(rng, out);
+                } else if tail && rng.chance(1, 2) {
+                    // ... or the last operand of its parenthesis level: `A || B && *`
                     Self::sp(rng, out);
                     out.push('*');
                     Self::sp(rng, out);
@@ -430,7 +433,7 @@ impl Pol {
                 let is_and = matches!(self, Pol::And(_));
                 if v.is_empty() {
                     // neutral element of AND; an empty OR is never generated
-                    Pol::All.print_into(rng, out, ctx, top);
+                    Pol::All.print_into(rng, out, ctx, top, tail);
                     return;
                 }
                 // parentheses are needed when an OR (of 2+ operands) is an operand of AND
@@ -457,7 +460,7 @@ impl Pol {
                         out.push_str(if is_and { "&&" } else { "||" });
                         Self::sp(rng, out);
                     }
-                    p.print_into(rng, out, child_ctx, false);
+                    p.print_into(rng, out, child_ctx, false, i + 1 == v.len() && (n_par > 0 || tail));
                 }
                 for _ in 0..n_par {
                     Self::sp(rng, out);
